@@ -39,6 +39,7 @@ package native
 //@   requires inv: INV(t) && result != nil
 //@   let top = t.callstack[len(t.callstack) - 1]
 //@   requires running [C19]: top.joinPoint == joinpoint && joinpoint != 0 && len(top.JoinPoints) >= 1 && top.JoinPoints[len(top.JoinPoints) - 1].Type == joinpoint
+//@   loop 0 invariant running-frame-is-visited-first: i == len(t.callstack[last].JoinPoints) - 1 && last == len(t.callstack) - 1
 //@   ensures inv [C19]: INV(t)
 //@   ensures marker-cleared [C19]: top.joinPoint == 0 && len(t.callstack) == old(len(t.callstack)) && len(top.JoinPoints) == old(len(top.JoinPoints))
 //@   ensures running-frame-completed [C19]: top.JoinPoints[len(top.JoinPoints) - 1].GasUsed == old(top.JoinPoints[len(top.JoinPoints) - 1].Gas) - result.Gas
